@@ -120,13 +120,23 @@ impl ClusterBidiStream for Duplex {
 
 #[derive(Clone, Default)]
 struct Sessions(Arc<Mutex<Vec<ActorRef<NodeSessionMessage>>>>);
-struct Sub(Sessions);
+/// (event kind, session pid) as reported through the public NodeEventSubscription callbacks
+#[derive(Clone, Default)]
+struct Events(Arc<Mutex<Vec<(&'static str, u64)>>>);
+struct Sub(Sessions, Events);
 impl NodeEventSubscription for Sub {
     fn node_session_opened(&self, s: NodeServerSessionInformation) {
         self.0 .0.lock().unwrap().push(s.actor);
     }
-    fn node_session_disconnected(&self, _: NodeServerSessionInformation) {}
-    fn node_session_authenticated(&self, _: NodeServerSessionInformation) {}
+    fn node_session_disconnected(&self, s: NodeServerSessionInformation) {
+        self.1 .0.lock().unwrap().push(("EvDisconnected", s.actor.get_id().pid()));
+    }
+    fn node_session_authenticated(&self, s: NodeServerSessionInformation) {
+        self.1 .0.lock().unwrap().push(("EvAuthenticated", s.actor.get_id().pid()));
+    }
+    fn node_session_ready(&self, s: NodeServerSessionInformation) {
+        self.1 .0.lock().unwrap().push(("EvReady", s.actor.get_id().pid()));
+    }
 }
 
 async fn barrier() {
@@ -361,7 +371,8 @@ struct Ctx {
 
 impl Ctx {
     fn target(&self, t: &str) -> u64 {
-        self.targets.get(t).copied().unwrap_or_else(|| u(t))
+        // symbolic targets that do not exist (yet) denote an unused pid
+        self.targets.get(t).copied().unwrap_or_else(|| t.parse().unwrap_or(4_000_000_000))
     }
 
     /// scripted frame -> (wire frame or raw bytes, Coq term of the netmsg)
@@ -578,7 +589,11 @@ async fn honest_server_handshake(peer: &mut Peer, names: &Names, n: u64, own: u6
 
 // ---------- handler-level runs on a constructed state (hook: node_session::verif_gate) ----------
 
-struct ServerStub;
+/// Scripted node server: how it answers CheckSession / GetSessions (0..3 = SessionCheckReply,
+/// 9 = drop the reply port, i.e. the call fails).
+#[derive(Clone, Default)]
+struct StubMode(Arc<Mutex<u8>>);
+struct ServerStub(StubMode);
 impl Actor for ServerStub {
     type Msg = NodeServerMessage;
     type State = ();
@@ -587,12 +602,22 @@ impl Actor for ServerStub {
         Ok(())
     }
     async fn handle(&self, _: ActorRef<Self::Msg>, m: NodeServerMessage, _: &mut ()) -> Result<(), ActorProcessingErr> {
+        use ractor_cluster::node::SessionCheckReply as R;
+        let mode = *self.0 .0.lock().unwrap();
         match m {
-            NodeServerMessage::CheckSession { reply, .. } => {
-                let _ = reply.send(ractor_cluster::node::SessionCheckReply::NoOtherConnection);
-            }
+            NodeServerMessage::CheckSession { reply, .. } => match mode {
+                0 => { let _ = reply.send(R::NoOtherConnection); }
+                1 => { let _ = reply.send(R::ThisConnectionContinues); }
+                2 => { let _ = reply.send(R::OtherConnectionContinues); }
+                3 => { let _ = reply.send(R::DuplicateConnection); }
+                _ => drop(reply),
+            },
             NodeServerMessage::GetSessions(reply) => {
-                let _ = reply.send(HashMap::new());
+                if mode == 9 {
+                    drop(reply);
+                } else {
+                    let _ = reply.send(HashMap::new());
+                }
             }
             _ => {}
         }
@@ -628,7 +653,8 @@ async fn run_unit(case: u64, rest: &str) -> String {
     let _ = dh.await;
     ractor::pg::join_scoped(grp(case, 900), grp(case, 901), vec![r.get_cell()]);
     let own = 0u64;
-    let (ns, _) = Actor::spawn(None, ServerStub, ()).await.unwrap();
+    let stub_mode = StubMode::default();
+    let (ns, _) = Actor::spawn(None, ServerStub(stub_mode.clone()), ()).await.unwrap();
     let (me, _) = Actor::spawn(None, SessionStub, ()).await.unwrap();
     let mut ctx = Ctx {
         case,
@@ -664,6 +690,12 @@ async fn run_unit(case: u64, rest: &str) -> String {
     for op in ops.split(';') {
         let w: Vec<&str> = op.split_whitespace().collect();
         if w.is_empty() {
+            continue;
+        }
+        if w[0] == "nsreply" {
+            // harness-local: change how the scripted node server answers from now on
+            *stub_mode.0.lock().unwrap() = if w[1] == "drop" { 9 } else { u(w[1]) as u8 };
+            steps.push(format!("(Stub {})", if w[1] == "drop" { 9 } else { u(w[1]) }));
             continue;
         }
         let (frame, term) = ctx.build(&w);
@@ -778,6 +810,10 @@ fn kind_s_code(k: &str) -> u64 {
 async fn run_live(case: u64, rest: &str) -> String {
     let mut it = rest.splitn(3, ' ');
     let role = it.next().unwrap();
+    let (role, transitive) = match role.strip_suffix("/T") {
+        Some(r) => (r, true),
+        None => (role, false),
+    };
     let (role, own) = match role.split_once('@') {
         Some((r, k)) => (r, u(k)),
         None => (role, 0),
@@ -794,13 +830,25 @@ async fn run_live(case: u64, rest: &str) -> String {
 
     let (ns, _) = Actor::spawn(
         None,
-        NodeServer::new(0, cookie_str(own), format!("s{SELF_NAME}"), "h".into(), None, None),
+        NodeServer::new(
+            0,
+            cookie_str(own),
+            format!("s{SELF_NAME}"),
+            "h".into(),
+            None,
+            Some(if transitive {
+                ractor_cluster::node::NodeConnectionMode::Transitive
+            } else {
+                ractor_cluster::node::NodeConnectionMode::Isolated
+            }),
+        ),
         (),
     )
     .await
     .expect("node server");
     let sessions = Sessions::default();
-    ns.cast(NodeServerMessage::SubscribeToEvents { id: "h".into(), subscription: Box::new(Sub(sessions.clone())) }).unwrap();
+    let events = Events::default();
+    ns.cast(NodeServerMessage::SubscribeToEvents { id: "h".into(), subscription: Box::new(Sub(sessions.clone(), events.clone())) }).unwrap();
     barrier().await;
 
     // learn this node's connection string (the listener's port is chosen by the OS) through a
@@ -844,7 +892,12 @@ async fn run_live(case: u64, rest: &str) -> String {
     let n_pre = sessions.0.lock().unwrap().len();
 
     let (a, b) = tokio::io::duplex(1 << 20);
-    ns.cast(NodeServerMessage::ConnectionOpenedExternal { stream: Box::new(Duplex(a)), is_server }).unwrap();
+    if is_server {
+        ns.cast(NodeServerMessage::ConnectionOpenedExternal { stream: Box::new(Duplex(a)), is_server }).unwrap();
+    } else {
+        // the public entry point for outgoing connections over a custom transport
+        ractor_cluster::client_connect_external(&ns, Box::new(Duplex(a))).await.expect("connect_external");
+    }
     barrier().await;
     let session = sessions.0.lock().unwrap().get(n_pre).cloned().expect("session opened");
     let mut peer = Peer::new(b);
@@ -890,16 +943,46 @@ async fn run_live(case: u64, rest: &str) -> String {
 
     let mut steps = vec![];
     let mut seen_log = 0usize;
+    let mut seen_ev = events.0.lock().unwrap().len();
+    let mut extra: Vec<ractor::ActorCell> = vec![];
     for op in ops.split(';') {
         let w: Vec<&str> = op.split_whitespace().collect();
         if w.is_empty() {
             continue;
         }
-        let (frame, term) = ctx.build(&w);
-        match &frame {
-            Ok(m) => peer.send(m).await,
-            Err(bytes) => peer.send_raw(bytes).await,
-        }
+        // local (not peer-caused) events on the node under test: a new local actor appears / exits
+        let term = if w[0] == "lspawnR" || w[0] == "lspawnP" {
+            let rem = w[0] == "lspawnR";
+            let pid = if rem {
+                let (a, _) = Actor::spawn(None, Remotable(log.clone()), ()).await.unwrap();
+                extra.push(a.get_cell());
+                a.get_id().pid()
+            } else {
+                let (a, _) = Actor::spawn(None, Plain(log.clone()), ()).await.unwrap();
+                extra.push(a.get_cell());
+                a.get_id().pid()
+            };
+            ctx.targets.insert(if rem { "R2" } else { "P2" }, pid);
+            format!("LSpawn {pid} {}", coq_bool(rem))
+        } else if w[0] == "lstopR2" {
+            match ctx.targets.remove("R2") {
+                Some(pid) => {
+                    if let Some(c) = extra.iter().find(|c| c.get_id().pid() == pid) {
+                        c.stop(None);
+                    }
+                    format!("LTerminate {pid} true")
+                }
+                None => "LNone".to_string(),
+            }
+        } else {
+            let (frame, term) = ctx.build(&w);
+            match &frame {
+                Ok(m) => peer.send(m).await,
+                Err(bytes) => peer.send_raw(bytes).await,
+            }
+            term
+        };
+        barrier().await;
         barrier().await;
         // --- observe
         let frames = peer.new_frames();
@@ -963,6 +1046,15 @@ async fn run_live(case: u64, rest: &str) -> String {
             }
             Err(_) => vec![],
         };
+        let evs: Vec<String> = {
+            let l = events.0.lock().unwrap();
+            let out = l[seen_ev..]
+                .iter()
+                .map(|(k, pid)| format!("({k} {})", coq_bool(*pid == session.get_id().pid())))
+                .collect();
+            seen_ev = l.len();
+            out
+        };
         let deliveries: Vec<String> = {
             let l = log.0.lock().unwrap();
             let out = l[seen_log..]
@@ -1002,7 +1094,7 @@ async fn run_live(case: u64, rest: &str) -> String {
             }
         }
         steps.push(format!(
-            "({term}, ({}, {}, {}), {}, {}, {}, {}, {}, {rnd})",
+            "({term}, ({}, {}, {}), {}, {}, {}, {}, {}, {rnd}, {})",
             coq_bool(alive),
             coq_bool(ok),
             coq_bool(alive_after_probe),
@@ -1011,6 +1103,7 @@ async fn run_live(case: u64, rest: &str) -> String {
             coq_list(&proxy_terms),
             coq_list(&groups),
             coq_list(&listed),
+            coq_list(&evs),
         ));
     }
     let header = format!(
@@ -1023,6 +1116,9 @@ async fn run_live(case: u64, rest: &str) -> String {
         session.get_id().pid()
     );
     // ---- tear down
+    for c in &extra {
+        c.stop(None);
+    }
     drop(peer);
     drop(pre_peer);
     ns.stop(None);
@@ -1033,16 +1129,330 @@ async fn run_live(case: u64, rest: &str) -> String {
     format!("({header}, {}, {})", coq_list(&init_terms), coq_list(&steps))
 }
 
-fn main() {
-    let rt = tokio::runtime::Builder::new_current_thread().enable_all().start_paused(true).build().unwrap();
-    rt.block_on(async {
-        for (i, line) in stdin_lines().into_iter().enumerate() {
-            let (kind, rest) = line.split_once(' ').unwrap_or((&line, ""));
-            match kind {
-                "live" => println!("{}", run_live(i as u64 + 1, rest).await),
-                "unit" => println!("{}", run_unit(i as u64 + 1, rest).await),
-                other => panic!("unknown case kind {other}"),
+// ---------- real TCP connections: the listener / client::connect entry points (ConnectionOpened) ----------
+//
+// tcp <in|out>[@K] <good|none|wrong:<dspec>> <pre ops ; ...> | <post ops ; ...>
+//   in : the adversary dials the node's own TCP listener (server-side session)
+//   out: the node dials the adversary's TCP listener through `client_connect` (client-side session)
+// Runs on an ordinary (not paused) runtime; every wait is an await on the socket (a frame or EOF) or on
+// the actor status, never a timeout that decides anything (the 20 s guard only turns a hang into an error).
+
+async fn tcp_read_frame(s: &mut tokio::net::TcpStream) -> Option<pm::NetworkMessage> {
+    let len = s.read_u64().await.ok()?;
+    let mut buf = vec![0u8; len as usize];
+    s.read_exact(&mut buf).await.ok()?;
+    pm::NetworkMessage::decode(buf.as_slice()).ok()
+}
+async fn tcp_send(s: &mut tokio::net::TcpStream, m: &pm::NetworkMessage) {
+    let mut buf = (m.encoded_len() as u64).to_be_bytes().to_vec();
+    m.encode(&mut buf).unwrap();
+    let _ = s.write_all(&buf).await;
+    let _ = s.flush().await;
+}
+/// read frames into `got` until `pred` holds for one of them; false on EOF
+async fn tcp_until(s: &mut tokio::net::TcpStream, got: &mut Vec<pm::NetworkMessage>, pred: impl Fn(&pm::NetworkMessage) -> bool) -> bool {
+    loop {
+        match tcp_read_frame(s).await {
+            None => return false,
+            Some(f) => {
+                let hit = pred(&f);
+                got.push(f);
+                if hit {
+                    return true;
+                }
             }
         }
-    });
+    }
+}
+fn is_auth(f: &pm::NetworkMessage, p: impl Fn(&pa::authentication_message::Msg) -> bool) -> bool {
+    matches!(&f.message, Some(pm::network_message::Message::Auth(a)) if a.msg.as_ref().is_some_and(|m| p(m)))
+}
+fn is_control(f: &pm::NetworkMessage, p: impl Fn(&pc::control_message::Msg) -> bool) -> bool {
+    matches!(&f.message, Some(pm::network_message::Message::Control(c)) if c.msg.as_ref().is_some_and(|m| p(m)))
+}
+
+async fn run_tcp(case: u64, rest: &str) -> String {
+    use pa::authentication_message::Msg as A;
+    let mut it = rest.splitn(3, ' ');
+    let dir = it.next().unwrap();
+    let (dir, own) = match dir.split_once('@') {
+        Some((d, k)) => (d, u(k)),
+        None => (dir, 0),
+    };
+    let inbound = dir == "in";
+    let auth = it.next().unwrap().to_string();
+    let script = it.next().unwrap_or("|");
+    let (pre_ops, post_ops) = script.split_once('|').unwrap_or((script, ""));
+
+    let log = Log::default();
+    let (r, _) = Actor::spawn(None, Remotable(log.clone()), ()).await.unwrap();
+    let (p, _) = Actor::spawn(None, Plain(log.clone()), ()).await.unwrap();
+    ractor::pg::join_scoped(grp(case, 900), grp(case, 901), vec![r.get_cell()]);
+    let (ns, _) = Actor::spawn(None, NodeServer::new(0, cookie_str(own), format!("s{SELF_NAME}"), "h".into(), None, None), ())
+        .await
+        .expect("node server");
+    let sessions = Sessions::default();
+    let events = Events::default();
+    ns.cast(NodeServerMessage::SubscribeToEvents { id: "h".into(), subscription: Box::new(Sub(sessions.clone(), events.clone())) }).unwrap();
+    let _ = ractor::call_t!(ns, NodeServerMessage::GetSessions, 5000);
+
+    // the listener's port: ask over a throw-away in-memory connection (ServerChallenge carries "h:<port>")
+    let mut self_cs = "h:0".to_string();
+    {
+        let (a, mut b) = tokio::io::duplex(1 << 16);
+        ns.cast(NodeServerMessage::ConnectionOpenedExternal { stream: Box::new(Duplex(a)), is_server: true }).unwrap();
+        let m = auth_frame(A::Name(pa::NameMessage { name: "s999@h".into(), flags: None, connection_string: "c999".into(), connection_id: 1 }));
+        let mut buf = (m.encoded_len() as u64).to_be_bytes().to_vec();
+        m.encode(&mut buf).unwrap();
+        b.write_all(&buf).await.unwrap();
+        loop {
+            let len = b.read_u64().await.expect("probe connection");
+            let mut fb = vec![0u8; len as usize];
+            b.read_exact(&mut fb).await.unwrap();
+            let f = pm::NetworkMessage::decode(fb.as_slice()).unwrap();
+            if let Some(pm::network_message::Message::Auth(a)) = f.message {
+                if let Some(A::ServerChallenge(c)) = a.msg {
+                    self_cs = c.connection_string;
+                    break;
+                }
+            }
+        }
+        drop(b);
+    }
+    let port: u16 = self_cs.rsplit(':').next().unwrap().parse().unwrap();
+    // wait until the throw-away session is gone
+    loop {
+        let all_dead = sessions.0.lock().unwrap().iter().all(|s| s.get_status() == ActorStatus::Stopped);
+        if all_dead {
+            break;
+        }
+        tokio::task::yield_now().await;
+    }
+    let n_before = sessions.0.lock().unwrap().len();
+    let ev_before = events.0.lock().unwrap().len();
+
+    // ---- open the real TCP connection
+    let mut sock = if inbound {
+        tokio::net::TcpStream::connect(("127.0.0.1", port)).await.expect("dial the node's listener")
+    } else {
+        let l = tokio::net::TcpListener::bind("127.0.0.1:0").await.unwrap();
+        let addr = l.local_addr().unwrap();
+        let ns2 = ns.clone();
+        tokio::spawn(async move {
+            let _ = ractor_cluster::client_connect(&ns2, addr).await;
+        });
+        l.accept().await.unwrap().0
+    };
+    let _ = sock.set_nodelay(true);
+    // the session actor (node_session_opened)
+    let session = loop {
+        if let Some(s) = sessions.0.lock().unwrap().get(n_before).cloned() {
+            break s;
+        }
+        tokio::task::yield_now().await;
+    };
+    let mut ctx = Ctx { case, names: Names { self_cs }, dg: Digests::new(own), issued: 0, targets: HashMap::new() };
+    ctx.targets.insert("R", r.get_id().pid());
+    ctx.targets.insert("P", p.get_id().pid());
+    ctx.targets.insert("NS", ns.get_id().pid());
+    ctx.targets.insert("SESS", session.get_id().pid());
+    ctx.targets.insert("NONE", 4_000_000_000);
+
+    let mut got: Vec<pm::NetworkMessage> = vec![];
+    let mut msgs: Vec<String> = vec![]; // (term, rnd)
+    let mut connid = 0u64;
+    if !inbound {
+        // a client-side session announces itself first
+        tcp_until(&mut sock, &mut got, |f| is_auth(f, |m| matches!(m, A::Name(_)))).await;
+        if let Some(pm::network_message::Message::Auth(a)) = &got.last().unwrap().message {
+            if let Some(A::Name(n)) = &a.msg {
+                connid = n.connection_id;
+            }
+        }
+    }
+    for op in pre_ops.split(';') {
+        let w: Vec<&str> = op.split_whitespace().collect();
+        if w.is_empty() {
+            continue;
+        }
+        let (frame, term) = ctx.build(&w);
+        if let Ok(m) = &frame {
+            tcp_send(&mut sock, m).await;
+            msgs.push(format!("({term}, 0)"));
+        }
+    }
+    // ---- handshake
+    let mut authenticated = false;
+    let mut eof = false;
+    if auth != "none" {
+        let dspec = if auth == "good" { format!("k:{own}:I") } else { auth.trim_start_matches("wrong:").to_string() };
+        if inbound {
+            let (m, t) = ctx.build(&["name", "1", "2", "3"]);
+            tcp_send(&mut sock, m.as_ref().unwrap()).await;
+            if tcp_until(&mut sock, &mut got, |f| is_auth(f, |m| matches!(m, A::ServerChallenge(_)))).await {
+                if let Some(pm::network_message::Message::Auth(a)) = &got.last().unwrap().message {
+                    if let Some(A::ServerChallenge(c)) = &a.msg {
+                        ctx.issued = c.challenge;
+                        ctx.dg.learn(c.challenge);
+                    }
+                }
+                msgs.push(format!("({t}, {})", ctx.issued));
+                let (m, t) = ctx.build(&["cchal", "5", &dspec]);
+                tcp_send(&mut sock, m.as_ref().unwrap()).await;
+                msgs.push(format!("({t}, 0)"));
+            } else {
+                msgs.push(format!("({t}, 0)"));
+                eof = true;
+            }
+        } else {
+            let (m, t) = ctx.build(&["sstatus", "0"]);
+            tcp_send(&mut sock, m.as_ref().unwrap()).await;
+            msgs.push(format!("({t}, 0)"));
+            let (m, t) = ctx.build(&["schal", "7", "8", "99"]);
+            tcp_send(&mut sock, m.as_ref().unwrap()).await;
+            if tcp_until(&mut sock, &mut got, |f| is_auth(f, |m| matches!(m, A::ClientChallenge(_)))).await {
+                if let Some(pm::network_message::Message::Auth(a)) = &got.last().unwrap().message {
+                    if let Some(A::ClientChallenge(c)) = &a.msg {
+                        ctx.issued = c.challenge;
+                        ctx.dg.learn(c.challenge);
+                        ctx.dg.last_sent = Some(c.digest.clone());
+                    }
+                }
+                msgs.push(format!("({t}, {})", ctx.issued));
+                let (m, t) = ctx.build(&["sack", &dspec]);
+                tcp_send(&mut sock, m.as_ref().unwrap()).await;
+                msgs.push(format!("({t}, 0)"));
+            } else {
+                msgs.push(format!("({t}, 0)"));
+                eof = true;
+            }
+        }
+        if !eof {
+            // either the session finishes its synchronisation (Ready) or it closes the connection
+            authenticated = tcp_until(&mut sock, &mut got, |f| is_control(f, |m| matches!(m, pc::control_message::Msg::Ready(_)))).await;
+            eof = !authenticated;
+        }
+    }
+    for op in post_ops.split(';') {
+        let w: Vec<&str> = op.split_whitespace().collect();
+        if w.is_empty() {
+            continue;
+        }
+        let (frame, term) = ctx.build(&w);
+        if let Ok(m) = &frame {
+            tcp_send(&mut sock, m).await;
+            msgs.push(format!("({term}, 0)"));
+        }
+    }
+    if authenticated {
+        // barrier: everything sent so far has been handled once the Pong for this Ping arrives
+        tcp_send(&mut sock, &control_frame(Some(pc::control_message::Msg::Ping(ping_ts(99))))).await;
+        msgs.push("(NControl (KPing 99), 0)".to_string());
+        tcp_until(&mut sock, &mut got, |f| {
+            is_control(f, |m| matches!(m, pc::control_message::Msg::Pong(p) if p.timestamp.as_ref().map(|t| t.seconds) == Some(99)))
+        })
+        .await;
+    } else {
+        // nothing more to say: close our sending side and wait until the session actor is gone
+        let _ = sock.shutdown().await;
+        while tcp_read_frame(&mut sock).await.map(|f| got.push(f)).is_some() {}
+        while session.get_status() != ActorStatus::Stopped {
+            tokio::task::yield_now().await;
+        }
+    }
+    // let every already-woken task (probes, node server) run
+    let listed_self = match ractor::call_t!(ns, NodeServerMessage::GetSessions, 5000) {
+        Ok(m) => m.values().any(|s| s.actor.get_id() == session.get_id()),
+        Err(_) => false,
+    };
+    for _ in 0..50 {
+        tokio::task::yield_now().await;
+    }
+    let frame_terms: Vec<String> = got
+        .iter()
+        .filter(|f| !is_control(f, |m| matches!(m, pc::control_message::Msg::Ping(_))))
+        .map(|f| match &f.message {
+            Some(pm::network_message::Message::Auth(pa::AuthenticationMessage { msg: Some(A::Name(n)) })) => {
+                format!("ESendAuth (AName {} {} 0)", ctx.names.un_name(&n.name), ctx.names.un_cs(&n.connection_string))
+            }
+            _ => frame_term(f, &ctx.names, &ctx.dg),
+        })
+        .collect();
+    let deliveries: Vec<String> = log
+        .0
+        .lock()
+        .unwrap()
+        .iter()
+        .map(|s| {
+            let (k, pid) = s.split_once(' ').unwrap();
+            match k {
+                "cast" => format!("EDeliverCast {pid}"),
+                "call" => format!("EDeliverCall {pid} 0"),
+                _ => format!("EDeliverOther {pid}"),
+            }
+        })
+        .collect();
+    let mut proxies: Vec<(u64, String)> =
+        session.get_children().iter().filter(|c| !c.get_id().is_local()).map(|c| (c.get_id().pid(), opt_name(&c.get_name()))).collect();
+    proxies.sort();
+    let mut groups = vec![];
+    for s in 1..=2u64 {
+        for g in 1..=2u64 {
+            let mut m: Vec<u64> = ractor::pg::get_scoped_members(&grp(case, s), &grp(case, g)).iter().map(|c| c.get_id().pid()).collect();
+            m.sort();
+            if !m.is_empty() {
+                groups.push(format!("({s}, {g}, {})", coq_nums(m)));
+            }
+        }
+    }
+    let evs: Vec<String> = events.0.lock().unwrap()[ev_before..]
+        .iter()
+        .filter(|(_, pid)| *pid == session.get_id().pid())
+        .map(|(k, _)| k.to_string())
+        .collect();
+    let alive = session.get_status() != ActorStatus::Stopped && session.get_status() != ActorStatus::Stopping;
+    let out = format!(
+        "(({}, {}, {}, {}), {}, {}, {}, {}, {}, ({}, {}, {}))",
+        coq_bool(inbound),
+        connid,
+        r.get_id().pid(),
+        coq_bool(authenticated),
+        coq_list(&msgs),
+        coq_list(&frame_terms),
+        coq_list(&deliveries),
+        coq_list(&proxies.iter().map(|(p, n)| format!("({p}, {n})")).collect::<Vec<_>>()),
+        coq_list(&groups),
+        coq_bool(alive),
+        coq_bool(listed_self),
+        coq_list(&evs),
+    );
+    drop(sock);
+    ns.stop(None);
+    r.stop(None);
+    p.stop(None);
+    while ns.get_status() != ActorStatus::Stopped || r.get_status() != ActorStatus::Stopped {
+        tokio::task::yield_now().await;
+    }
+    out
+}
+
+fn main() {
+    // live / unit cases: deterministic paused-clock runtime; tcp cases: ordinary runtime (real sockets)
+    let rt = tokio::runtime::Builder::new_current_thread().enable_all().start_paused(true).build().unwrap();
+    let rt_tcp = tokio::runtime::Builder::new_current_thread().enable_all().build().unwrap();
+    for (i, line) in stdin_lines().into_iter().enumerate() {
+        let (kind, rest) = line.split_once(' ').unwrap_or((&line, ""));
+        match kind {
+            "live" => println!("{}", rt.block_on(run_live(i as u64 + 1, rest))),
+            "unit" => println!("{}", rt.block_on(run_unit(i as u64 + 1, rest))),
+            "tcp" => {
+                let res = rt_tcp.block_on(async { tokio::time::timeout(Duration::from_secs(20), run_tcp(i as u64 + 1, rest)).await });
+                match res {
+                    Ok(s) => println!("{s}"),
+                    Err(_) => panic!("tcp case hung (20 s guard): {line}"),
+                }
+            }
+            other => panic!("unknown case kind {other}"),
+        }
+    }
 }
